@@ -57,7 +57,10 @@ func (cr *concRun) checkBulkResults() {
 			excused := false
 			ownSupplied := false
 			for _, l := range cr.r.Loads {
-				if l.Op == h.Op && l.Outcome == "val" {
+				// only the load this call made for its missing keys: the reload of stale entries that the
+				// same BulkGet hands to the executor runs with the same loader and may volunteer the key
+				// later, after the call has returned ("caches additional keys ... without returning them")
+				if l.Op == h.Op && l.Outcome == "val" && !l.Reload && l.Exit != 0 && l.Exit < h.Ret {
 					if _, ok := l.Ret[k]; ok {
 						ownSupplied = true
 					}
